@@ -258,4 +258,23 @@ class C08(SimCheck):
     nontrivial_floor = {"quick": 30, "thorough": 200}
 
 
-CHECKS = {"C08": C08, "C19": C19, "C02": C02, "C03": C03, "C04": C04, "C18": C18, "C01": C01, "C05": C05, "C06": C06, "C07": C07, "C10": C10, "C20": C20}
+class C12(SimCheck):
+    pid = "C12"
+    rule = ("names (single label, dots, trailing dot, escaped, boundary length) x ndots 0..3 x domain lists incl. the root x NOSEARCH/NOALIASES x HOSTALIASES file x per-candidate outcomes "
+            "(answer, NXDOMAIN, NODATA with/without SOA, plus explicit rules) for ares_search_dnsrec, ares_search, ares_getaddrinfo, ares_gethostbyname; reference candidates(name, cfg) written from "
+            "resolv.conf(5); oracle: the distinct question names the virtual server sees for the request are, in order, a prefix of the reference list; for plain searches with one decisive reply per "
+            "candidate the prefix is cut exactly at the first candidate with data or a hard error and the final status is that outcome, else ENODATA if any candidate was NODATA, else the last status "
+            "(SERVFAIL/REFUSED on a single-label candidate may continue or stop). non-trivial = the reference list has >= 2 candidates; distinct = distinct scenario text")
+    required_counters = ["c12.orders_checked", "c12.requests_with_2plus_candidates", "c12.stop_rules_checked"]
+
+
+class C13(SimCheck):
+    pid = "C13"
+    rule = ("getaddrinfo / gethostbyname / gethostbyaddr / getnameinfo against answers with CNAME chains, 1-40 A/AAAA records, mixed families in one answer, TTL mixes, hint flags (CANONNAME, NOSORT, "
+            "ENVHOSTS), families, ports, lookups b/f/bf/fb and generated hosts files; oracle: multiset{(family, address)} of the result == A/AAAA records of the accepted answers restricted to the "
+            "requested family (hostent: one family), port and TTL per node, hosts-file results between the lines naming the host and the documented merged entry, reverse lookups ask exactly the "
+            "reverse-map name and return only PTR targets. non-trivial = >= 2 addresses or a CNAME chain; distinct = distinct scenario text")
+    required_counters = ["c13.dns_results_checked", "c13.with_cname_chain", "c13.reverse_names_checked", "c13.hosts_results_checked"]
+
+
+CHECKS = {"C12": C12, "C13": C13, "C08": C08, "C19": C19, "C02": C02, "C03": C03, "C04": C04, "C18": C18, "C01": C01, "C05": C05, "C06": C06, "C07": C07, "C10": C10, "C20": C20}
